@@ -101,13 +101,18 @@ func VerifRequestCachePendingAndCachedError() {
 	verif.Assert("start-while-pending-reports-pending", rc.Start("k", second.run) == ErrRequestPending)
 	verif.Assert("pending-key-does-not-block-other-keys", rc.Start("other", other.run) == nil)
 	close(other.gate)
+	// the request is slow: time passes (0..25 s) while it is executing
+	slow := verif.IntRange("seconds_request_takes", 0, 25)
+	clk.Add(time.Duration(slow) * time.Second)
 	close(first.gate)
 	<-first.done
 
-	// time passes (whole seconds, 0..30 s). The error is recorded by the runner
-	// goroutine at time 0 or, if it is slow, after the clock moved: its expiry is
-	// at least ttl, so up to ttl it is certainly unexpired. What happens after
-	// expiry is not part of the statement (covered, not asserted).
+	// more time passes (whole seconds, 0..30 s) after the request returned. The
+	// error is recorded by the runner goroutine when the request fails, i.e. at
+	// "slow" seconds or, if the goroutine is slow, after the clock moved again:
+	// its expiry is at least ttl after the failure, so up to dt <= ttl it is
+	// certainly unexpired. What happens after expiry is not part of the
+	// statement (covered, not asserted).
 	dt := verif.IntRange("seconds_later", 0, 30)
 	clk.Add(time.Duration(dt) * time.Second)
 	r := rc.Start("k", second.run)
